@@ -90,6 +90,15 @@ def op_stmt():
     return st.builds(mk, op, st.lists(push_tok(), min_size=6, max_size=6), st.sampled_from([True, True, True, True, False]))
 
 
+def locktime_stmt():
+    """CLTV / CSV with an operand related to the transaction's own lock time / input sequence"""
+    kinds = ["eq", "+1", "-1", "bit16", "bit17", "bit21", "bit22", "bit23", "bit31", "mask16", "era", "neg", "zero", "big5"]
+    return st.builds(lambda which, kind, enc, drop: [["ctxnum", "locktime" if which == V.OP_CHECKLOCKTIMEVERIFY else "sequence", kind, enc],
+                                                     ["op", which]] + ([["op", V.OP_DROP]] if drop else []),
+                     st.sampled_from([V.OP_CHECKLOCKTIMEVERIFY, V.OP_CHECKSEQUENCEVERIFY]), st.sampled_from(kinds),
+                     st.sampled_from(["min", "min", "min", "p1"]), st.booleans())
+
+
 def pick_roll_stmt():
     return st.builds(lambda ps, n, enc, op: ps + [["n", n, enc], ["op", op]],
                      st.lists(push_tok(), min_size=0, max_size=4),
@@ -126,7 +135,7 @@ def multisig_stmt(cs=st.just(0), sig_variants=SIG_VARIANTS, key_forms=KEY_FORMS)
 
 def stmt_list(depth):
     base = weighted((2, push_tok().map(lambda t: [t])), (10, op_stmt()), (1, pick_roll_stmt()),
-                    (1, checksig_stmt()), (1, multisig_stmt()))
+                    (1, checksig_stmt()), (1, multisig_stmt()), (1, locktime_stmt()))
     if depth <= 0:
         return st.lists(base, max_size=5).map(lambda ls: [t for l in ls for t in l])
 
@@ -155,8 +164,11 @@ def limit_programs():
     msig_opcount = st.builds(lambda k, n: [["rep", [nop], k], ["n", 0, "opn"], ["n", 0, "opn"]] +
                              [["key", i % 6, "c"] for i in range(n)] + [["n", n, "opn" if n <= 16 else "min"], ["op", V.OP_CHECKMULTISIG], ["op", V.OP_NOT]],
                              st.sampled_from([179, 180, 181, 182, 190, 196, 197, 198, 199, 200]), st.sampled_from([0, 1, 2, 3, 20, 19]))
-    stack = st.builds(lambda k, alt: [one, ["rep", [["op", V.OP_DUP]], k]] + ([["rep", [["op", V.OP_TOALTSTACK]], alt]] if alt else []) + [one] * 1,
-                      st.sampled_from([997, 998, 999, 1000]), st.sampled_from([0, 0, 3, 500]))
+    # pushes are not counted as operations, so 1000 stack items are reached with OP_1 x k (DUP chains stop at 201 ops);
+    # "tail" optionally moves some to the altstack (the limit is on the sum) or duplicates the top
+    stack = st.builds(lambda k, alt, tail: [["rep", [one], k]] + ([["rep", [["op", V.OP_TOALTSTACK]], alt]] if alt else []) + tail,
+                      st.sampled_from([998, 999, 1000, 1001]), st.sampled_from([0, 0, 3, 150]),
+                      st.sampled_from([[], [], [["op", V.OP_DUP]], [["op", V.OP_3DUP]], [["op", V.OP_DROP]], [["op", V.OP_DEPTH]]]))
     size = st.builds(lambda total, blob: [["rep", [["d", "aa" * blob, "min"], ["op", V.OP_DROP]], (total // (blob + 4)) - 1],
                                           ["d", "bb" * max(0, total - ((total // (blob + 4)) - 1) * (blob + 4) - 3 - 1), "p2"], ["op", V.OP_DROP], one][:],
                      st.sampled_from([9999, 10000, 10001, 10002]), st.just(516))
@@ -264,8 +276,9 @@ def lock_templates():
         lock = ([["op", V.OP_CODESEPARATOR]] if sep else []) + [["sig", k, ht, "ok", 1 if sep else 0], ["key", k, "c"], ["op", V.OP_CHECKSIG]]
         return lock, []
 
-    def cltv(k, n, ht, which):
-        lock = [["n", n, "min"], ["op", which], ["op", V.OP_DROP], ["key", k, "c"], ["op", V.OP_CHECKSIG]]
+    def cltv(k, n, ht, which, kind):
+        num = ["n", n, "min"] if kind is None else ["ctxnum", "locktime" if which == V.OP_CHECKLOCKTIMEVERIFY else "sequence", kind, "min"]
+        lock = [num, ["op", which], ["op", V.OP_DROP], ["key", k, "c"], ["op", V.OP_CHECKSIG]]
         return lock, [["sig", k, ht, "ok", 0]]
 
     def ifsig(k, ht, cond):
@@ -286,7 +299,8 @@ def lock_templates():
                   st.sampled_from([V.OP_CHECKMULTISIG, V.OP_CHECKMULTISIG, V.OP_CHECKMULTISIGVERIFY]),
                   st.sampled_from(["opn", "opn", "opn", "min", "p1"])),
         st.builds(embedded, ks, ht, st.booleans()),
-        st.builds(cltv, ks, st.sampled_from(INTERESTING_NUMS), STD_HT, st.sampled_from([V.OP_CHECKLOCKTIMEVERIFY, V.OP_CHECKSEQUENCEVERIFY])),
+        st.builds(cltv, ks, st.sampled_from(INTERESTING_NUMS), STD_HT, st.sampled_from([V.OP_CHECKLOCKTIMEVERIFY, V.OP_CHECKSEQUENCEVERIFY]),
+                  st.sampled_from([None, "eq", "eq", "+1", "-1", "bit16", "bit21", "bit22", "bit31", "mask16", "era"])),
         st.builds(ifsig, ks, STD_HT, st.sampled_from([["n", 1, "opn"], ["n", 0, "opn"], ["d", "02", "min"], ["d", "0100", "min"], ["d", "00", "min"]])),
     )
 
@@ -345,7 +359,8 @@ def spend_cases():
         "a913" + "00" * 19 + "7587",                           # 23 bytes HASH160 <19 bytes> DROP EQUAL: not P2SH
         "a94c13" + h160_of_51[:38] + "87",                     # 23 bytes with a PUSHDATA1: not P2SH
         "0014" + "00" * 20, "0020" + "00" * 32, "5114" + "00" * 20, "60020000", "0013" + "00" * 19, "0021" + "00" * 33,
-        "0028" + "00" * 40, "0029" + "00" * 41, "4f14" + "00" * 20, "0014" + "00" * 19, "004c14" + "00" * 20,
+        "0028" + "11" * 40, "0029" + "11" * 41, "5128" + "11" * 40, "6028" + "11" * 40, "5129" + "11" * 41, "0002" + "1111",
+        "0020" + "11" * 32, "0014" + "11" * 20, "5102" + "1111", "4f14" + "00" * 20, "0014" + "00" * 19, "004c14" + "00" * 20,
         "5102" + "0000", "0002" + "0000", "51", "00", "", "6a",
     ]
     raw = st.builds(mk_raw, st.sampled_from(raw_spks), st.sampled_from(["", "51", "0151", "00", "5151", "61", "5175", "0000"]),
